@@ -92,6 +92,9 @@ pub struct WorldCfg {
     pub log_in_key: bool,
     /// strict TLV provider (`<`) or lenient (`<=`)
     pub provider_strict: bool,
+    /// use the daemon's real `statime_linux::tlvforwarder::TlvForwarder` (one root, one
+    /// `duplicate()` per port) instead of the minimal queue providers
+    pub provider_daemon: bool,
     /// clock fails every command
     pub clock_fails: bool,
     /// use the real Kalman filter (default configuration) behind the recording filter
@@ -113,6 +116,7 @@ impl Default for WorldCfg {
             clock_now_ns: 5_000_001_000,
             log_in_key: false,
             provider_strict: false,
+            provider_daemon: false,
             clock_fails: false,
             kalman: false,
             share_seq_by_identity: false,
@@ -152,11 +156,33 @@ pub struct Step {
     pub slave_only_before: bool,
 }
 
+pub enum Provider {
+    Queue(QueueProvider),
+    Daemon(statime_linux::tlvforwarder::TlvForwarder),
+}
+impl statime::port::ForwardedTLVProvider for Provider {
+    fn next_if_smaller(&mut self, max_size: usize) -> Option<ForwardedTLV<'_>> {
+        match self {
+            Provider::Queue(q) => q.next_if_smaller(max_size),
+            Provider::Daemon(d) => d.next_if_smaller(max_size),
+        }
+    }
+}
+impl std::fmt::Debug for Provider {
+    fn fmt(&self, f: &mut std::fmt::Formatter<'_>) -> std::fmt::Result {
+        match self {
+            Provider::Queue(q) => write!(f, "{:?}", q.queue),
+            // opaque: the oracle's own reference queue (in the monitor key) stands for it
+            Provider::Daemon(_) => write!(f, "Daemon"),
+        }
+    }
+}
+
 pub struct Host {
     pub armed: [bool; 5],
     pub last_duration: [Option<core::time::Duration>; 5],
     pub pending: VecDeque<(TimestampContext, Vec<u8>)>,
-    pub provider: QueueProvider,
+    pub provider: Provider,
     pub last_delay_req_seq: Option<u16>,
     pub last_pdelay_req_seq: Option<u16>,
 }
@@ -173,6 +199,7 @@ pub struct Run<'a> {
     clock_seen: usize,
     pub steps_done: usize,
     pub dead: bool,
+    pub root_forwarder: Option<statime_linux::tlvforwarder::TlvForwarder>,
 }
 
 fn act_info(a: &Act) -> ActInfo {
@@ -234,10 +261,16 @@ impl<'a> Run<'a> {
                 Act::ResetReceipt(d) => self.arm(p, Timer::Receipt, *d),
                 Act::ResetFilter(d) => self.arm(p, Timer::Filter, *d),
                 Act::Forward(t) => {
+                    // main.rs: `tlv_forwarder.forward(tlv.into_owned())` reaches the receiver of
+                    // every port's duplicate, the originating port's own one included
                     let t: ForwardedTLV<'static> = t.clone();
-                    for q in 0..self.hosts.len() {
-                        if q != p {
-                            self.hosts[q].provider.queue.push_back(t.clone());
+                    if let Some(root) = &self.root_forwarder {
+                        root.forward(t);
+                    } else {
+                        for q in 0..self.hosts.len() {
+                            if let Provider::Queue(pq) = &mut self.hosts[q].provider {
+                                pq.queue.push_back(t.clone());
+                            }
                         }
                     }
                 }
@@ -490,7 +523,7 @@ impl<'a> Run<'a> {
                 "|armed{:?}|pend{:?}|q{:?}|dr{:?}|pdr{:?}\n",
                 h.armed,
                 h.pending.iter().map(|(c, _)| format!("{:?}", c)).collect::<Vec<_>>(),
-                h.provider.queue,
+                h.provider,
                 h.last_delay_req_seq,
                 h.last_pdelay_req_seq
             ));
@@ -526,6 +559,7 @@ impl WorldCfg {
         node.clock.borrow_mut().now = time_ns(self.clock_now_ns);
         node.clock.borrow_mut().fail_all = self.clock_fails;
         let n = node.ports.len();
+        let root_forwarder = if self.provider_daemon { Some(statime_linux::tlvforwarder::TlvForwarder::new()) } else { None };
         let mut run = Run {
             cfg: self,
             hosts: (0..n)
@@ -533,7 +567,10 @@ impl WorldCfg {
                     armed: [false; 5],
                     last_duration: [None; 5],
                     pending: Default::default(),
-                    provider: QueueProvider { queue: Default::default(), strict: self.provider_strict },
+                    provider: match &root_forwarder {
+                        Some(r) => Provider::Daemon(r.duplicate()),
+                        None => Provider::Queue(QueueProvider { queue: Default::default(), strict: self.provider_strict }),
+                    },
                     last_delay_req_seq: None,
                     last_pdelay_req_seq: None,
                 })
@@ -546,6 +583,7 @@ impl WorldCfg {
             node,
             steps_done: 0,
             dead: false,
+            root_forwarder,
         };
         // the actions returned by end_bmca at creation arm the first timers
         let init = std::mem::take(&mut run.node.initial_actions);
